@@ -2,6 +2,7 @@ import WhVerif.Util.Proto
 import WhVerif.Model.C04Json
 import WhVerif.Model.C20
 import WhVerif.Model.C20Files
+import WhVerif.Model.C20Deep
 namespace WhVerif.Driver.C20
 open Lean WhVerif.Proto WhVerif.C04 WhVerif.C04.Json WhVerif.C20
 
@@ -98,9 +99,65 @@ def handleFiles (op : String) (j : Json) : Option Json :=
             Json.arr #[Json.str x.1, ofList Json.str x.2.1, ofList Json.str x.2.2]) (processingOrder chroms samples ped))
   else none
 
+
+/-! round 10: `c20.ped`, `c20.samples`, `c20.findrec`, `c20.recrows` -/
+
+def ofPedLine (l : PedLine) : Json :=
+  Json.arr #[Json.str l.child, (match l.father with | some f => Json.str f | none => Json.null),
+    (match l.mother with | some m => Json.str m | none => Json.null)]
+
+def ofRecEvent (e : RecEvent) : Json := ofNatList [e.p1, e.p2, e.f1, e.f2, e.m1, e.m2, e.cost]
+
+def handleDeep (op : String) (j : Json) : Option Json :=
+  if op == "c20.ped" then
+    match getStr? j "text", getBool? j "viaPath" with
+    | some text, some viaPath =>
+      match parsePed viaPath text with
+      | .error .fewFields => some (Json.mkObj [("error", Json.str "fields")])
+      | .error (.duplicate id) => some (Json.mkObj [("error", Json.str "duplicate"), ("id", Json.str id)])
+      | .ok trios =>
+        let samples := (getObj? j "samples").bind strList?
+        some (Json.mkObj [("trios", ofList ofPedLine trios), ("samples", ofList Json.str (pedSamples trios)),
+          ("kept", match samples with
+            | some ss => ofList (fun t => Json.arr #[Json.str t.father, Json.str t.mother, Json.str t.child]) (keptTrios ss trios)
+            | none => Json.null)])
+    | _, _ => some badInput
+  else if op == "c20.samples" then
+    let parsed : Option (List String × List String × Option (List PedLine) × Bool) := do
+      let ped ← match j.getObjVal? "ped" with
+        | .ok Json.null => some none
+        | .ok v => ((← asArr? v).mapM pedLine?).map some
+        | _ => some none
+      pure (← strList? (← getObj? j "vcf"), ← strList? (← getObj? j "cli"), ped, ← getBool? j "usePed")
+    match parsed with
+    | none => some badInput
+    | some (vcf, cli, ped, usePed) =>
+      match selectSamples vcf cli ped usePed with
+      | .error s => some (Json.mkObj [("error", Json.str s)])
+      | .ok l => some (Json.mkObj [("samples", ofList Json.str l)])
+  else if op == "c20.findrec" then
+    let parsed : Option (Bool × List Nat × List (Nat × Nat) × List Nat × List Nat) := do
+      pure (← getBool? j "f22", ← getNatList? j "tv", ← (← getList? j "comps").mapM pairNat?, ← getNatList? j "positions",
+        ← getNatList? j "recomb")
+    match parsed with
+    | none => some badInput
+    | some (f22, tv, comps, positions, recomb) =>
+      match findRecombinationA f22 tv comps positions recomb with
+      | none => some (Json.mkObj [("assert", Json.bool true)])
+      | some evs => some (Json.mkObj [("events", ofList ofRecEvent evs)])
+  else if op == "c20.recrows" then
+    match (getObj? j "inst").bind inst? with
+    | none => some badInput
+    | some i =>
+      match recombRowsA true i with
+      | none => some (Json.mkObj [("assert", Json.bool true)])
+      | some rows => some (Json.mkObj [("rows", ofList ofRecRow rows)])
+  else none
+
 /-- ops of property C20 are named `c20.<name>`; return `none` for ops that are not ours -/
 def handle (op : String) (j : Json) : Option Json :=
   if op == "c20.files" || op == "c20.families" || op == "c20.order" then handleFiles op j
+  else if op == "c20.ped" || op == "c20.samples" || op == "c20.findrec" || op == "c20.recrows" then handleDeep op j
   else if op == "c20.rows" then
     match (getObj? j "inst").bind inst? with
     | some i => some (Json.mkObj [("read", ofList ofReadRow (readListRows i)), ("rec", ofList ofRecRow (recombRows i)),
